@@ -170,6 +170,11 @@ def r3_build_model(R) -> None:
 def r4_converter(R) -> None:
     q = f'{P}.build_model_definition'
     f = Fn(R, q)
+    for n in f.assigns_to('expressions'):
+        v = n.ast.value
+        if isinstance(v, (ast.DictComp, ast.SetComp, ast.Dict, ast.Set)) or is_call(v, 'dict', 'set', 'dict.fromkeys', 'frozenset'):
+            R.violation(q, 'expressions-deduplicated:' + text(v)[:50], f'`expressions = {text(v)[:60]}` collapses equal symbols: a statement that appears twice (e.g. a repeated '
+                        f'verbatim line) is inserted once', where=f.where(n))
     ds = [n for n in f.assigns_to('expressions') if isinstance(n.ast.value, ast.ListComp)]
     if not R.require(q, len(ds), 'expressions = [converter(s) for s in symbols if ...]', fi=f.fi, pred=lambda x: isinstance(x, ast.ListComp)):
         return
@@ -212,6 +217,14 @@ def r4_converter(R) -> None:
             'default converter = commented equation + code', 'default_converter does not emit `# equation` lines followed by the code', where=dc.where)
 
 
+def r6_trivial_models_solve(R) -> None:
+    """An empty symbol list yields a model that solves trivially: the convergence predicate must be well defined
+    for an empty list of check variables (C02.R5 owns the matcher)."""
+    from rules.solver_common import SolverShape, check_convergence
+    sh = SolverShape(R.repo, 'fsic.core.models.BaseModel.solve_t')
+    check_convergence(R, sh)
+
+
 def run(R) -> None:
     R.explanation = (
         'C15: the two class templates are folded, filled with neutral literals, parsed, stripped of annotations and compared as ASTs; '
@@ -225,3 +238,4 @@ def run(R) -> None:
     R.rule('C15.R3', lambda: r3_build_model(R))
     R.rule('C15.R4', lambda: r4_converter(R))
     R.rule('C15.R5', lambda: c01.r2_replacement_table(R))
+    R.rule('C15.R6', lambda: r6_trivial_models_solve(R))
